@@ -1177,8 +1177,10 @@ class TLSRecordLayer(object):
                             if subType == HandshakeType.client_hello:
                                 reneg = True
                         # Send no_renegotiation if we're not negotiating
-                        # a connection now, then try again
-                        if reneg and self.session:
+                        # a connection now, then try again (the session
+                        # object exists before the handshake is over)
+                        if reneg and self.session and \
+                                self._recordLayer.handshake_finished:
                             alertMsg = Alert()
                             alertMsg.create(AlertDescription.no_renegotiation,
                                             AlertLevel.warning)
